@@ -18,7 +18,8 @@ RULE = (
     'knots >= 5 mm apart and positive; spline or PEATCLSM transmissivity) x '
     'ET >= 0, curvature >= 0, not both zero x grids of 2-10 levels below '
     'the transmissivity ceiling, cells <= 60 mm, ascending and descending, '
-    'refined. Oracle: t[i]-t[i-1] equals an independent quadrature of '
+    'refined; a quarter of the grids are whole millimetres handed over as an '
+    'integer array. Oracle: t[i]-t[i-1] equals an independent quadrature of '
     'Sy/(-ET - curvature*T) with all knots as break points and T taken from '
     'the closed form (rtol 1e-6 since the code integrates knot by knot, plus '
     'quad\'s own absolute tolerance 3e-8 d per cell; was 1e-4 before that '
